@@ -35,12 +35,15 @@ type cnItem struct {
 type cnSub struct {
 	V int64
 }
-type cnCat struct{ Lives int64 }
-type cnDog struct{ Age int64 }
+type CnCat struct{ Lives int64 }
+type CnDog struct {
+	Age   int64
+	Owner *cnSub // null for half of the ages: a member switch then adds a field whose value is null
+}
 type cnPet struct {
 	schemabuilder.Union
-	*cnCat
-	*cnDog
+	*CnCat
+	*CnDog
 }
 
 type cnDB struct {
@@ -51,6 +54,7 @@ type cnDB struct {
 	petVal   int64
 	slowUs   int
 	failMode int // 0 ok, 1 plain error, 2 safe error, 3 panic, 4 plain error wrapping context.Canceled
+	failOnce int // the next run of `flaky` fails this way, once; its recovery is not accompanied by any invalidation
 	res      *reactive.Resource
 	cleanups *int32
 	allClean []*int32
@@ -128,6 +132,9 @@ func cnSchema(db *cnDB, rec *cnRec) *graphql.Schema {
 		}
 		db.mu.Lock()
 		mode := db.failMode
+		if field == "flaky" && mode == 0 && db.failOnce != 0 {
+			mode, db.failOnce = db.failOnce, 0
+		}
 		db.mu.Unlock()
 		if field == "flaky" {
 			switch mode {
@@ -192,16 +199,20 @@ func cnSchema(db *cnDB, rec *cnRec) *graphql.Schema {
 		defer db.mu.Unlock()
 		switch db.pet {
 		case 1:
-			return &cnPet{cnCat: &cnCat{Lives: db.petVal}}, nil
+			return &cnPet{CnCat: &CnCat{Lives: db.petVal}}, nil
 		case 2:
-			return &cnPet{cnDog: &cnDog{Age: db.petVal}}, nil
+			d := &CnDog{Age: db.petVal}
+			if (db.petVal/8)%2 == 1 {
+				d.Owner = &cnSub{V: db.petVal}
+			}
+			return &cnPet{CnDog: d}, nil
 		}
 		return nil, nil
 	})
 	sb.Object("cnItem", cnItem{})
 	sb.Object("cnSub", cnSub{})
-	sb.Object("cnCat", cnCat{})
-	sb.Object("cnDog", cnDog{})
+	sb.Object("CnCat", CnCat{})
+	sb.Object("CnDog", CnDog{})
 	m := sb.Mutation()
 	m.FieldFunc("setN", func(ctx context.Context, args struct{ V int64 }) (int64, error) {
 		id, _ := ctx.Value(cnSubIDKey{}).(string)
@@ -218,8 +229,8 @@ func cnSchema(db *cnDB, rec *cnRec) *graphql.Schema {
 var cnQueries = []string{
 	"query A { n }",
 	"query B { items { id name tags sub { v } } }",
-	"query C { pet { __typename ... on cnCat { lives } ... on cnDog { age } } n }",
-	"query D { items { id name } n pet { ... on cnCat { lives } } }",
+	"query C { pet { __typename ... on CnCat { lives } ... on CnDog { age owner { v } } } n }",
+	"query D { items { id name } n pet { ... on CnCat { lives } } }",
 	"query E { flaky n }",
 }
 
@@ -315,7 +326,11 @@ func cnGenActions(r *Rand, n int) []cnAction {
 		case 6:
 			out = append(out, cnAction{Op: "mutate", ID: id, Arg: int64(r.Intn(50))})
 		case 7, 8, 9:
-			out = append(out, cnAction{Op: "change", Arg: int64(r.Intn(1000))})
+			arg := int64(r.Intn(1000))
+			if r.Chance(0.25) {
+				arg = arg/8*8 + 5 // member switches more often than the other kinds of change
+			}
+			out = append(out, cnAction{Op: "change", Arg: arg})
 		case 10:
 			out = append(out, cnAction{Op: []string{"echo", "malformed", "mutateFail"}[r.Intn(3)], ID: id})
 		case 11:
@@ -445,6 +460,24 @@ func cnRun(cs cnCase) *cnResult {
 			res.Problem = "the connection stopped reading"
 		}
 	}
+	quiet := func() bool {
+		deadline := time.Now().Add(6 * time.Second)
+		for {
+			rec.mu.Lock()
+			before := rec.seq
+			rec.mu.Unlock()
+			time.Sleep(25 * time.Millisecond)
+			rec.mu.Lock()
+			same := rec.seq == before
+			rec.mu.Unlock()
+			if same {
+				return true
+			}
+			if time.Now().After(deadline) {
+				return false
+			}
+		}
+	}
 	for _, a := range cs.Actions {
 		id := fmt.Sprint(a.ID)
 		switch a.Op {
@@ -473,6 +506,11 @@ func cnRun(cs cnCase) *cnResult {
 			db.change(func() { db.failMode = int(a.Arg) })
 		case "heal":
 			db.change(func() { db.failMode = 0 })
+		case "failOnce":
+			// the data changes, and the next run of `flaky` fails once (plainly or with a client-safe error)
+			db.change(func() { db.failOnce = int(a.Arg); db.n++ })
+		case "settle":
+			quiet()
 		case "pause":
 			time.Sleep(time.Duration(a.Arg) * time.Microsecond)
 		}
@@ -522,25 +560,13 @@ func cnRun(cs cnCase) *cnResult {
 		db.mu.Unlock()
 		return res
 	}
-	// let the data settle: heal, one last change, then wait until nothing happens any more
-	db.change(func() { db.failMode = 0 })
-	quiet := func() bool {
-		deadline := time.Now().Add(6 * time.Second)
-		for {
-			rec.mu.Lock()
-			before := rec.seq
-			rec.mu.Unlock()
-			time.Sleep(25 * time.Millisecond)
-			rec.mu.Lock()
-			same := rec.seq == before
-			rec.mu.Unlock()
-			if same {
-				return true
-			}
-			if time.Now().After(deadline) {
-				return false
-			}
-		}
+	// let the data settle: heal (a persistent failure ends with a change; nothing is invalidated when none is
+	// in force, so that a run lost earlier is not papered over), then wait until nothing happens any more
+	db.mu.Lock()
+	failing := db.failMode != 0
+	db.mu.Unlock()
+	if failing {
+		db.change(func() { db.failMode = 0 })
 	}
 	if !quiet() {
 		res.Problem = "no quiescence before close"
